@@ -33,6 +33,7 @@ pub fn seed_points(thorough: bool) -> Vec<(&'static str, Point)> {
     let mut c = family::base_point();
     c.d[6] = 2;
     c.d[2] = idx(&family::LENS, 32);
+    c.d[7] = 3; // 17 bytes of trace metadata
     v.push(("auxiliary segment", c));
     // (d) Lagrange kernel column with a GKR proof
     let mut d = family::base_point();
@@ -185,8 +186,8 @@ impl<'a> PairFn for Integrity<'a> {
                         continue;
                     }
                     out.violation(
-                        format!("{pname}: a proof with changed content is accepted ({})", class_of(fam, &mlabel)),
-                        json!({"seed": label, "mutation": mlabel, "mutant_index": idx, "spec": st.spec.json(), "options": format!("{:?}", st.opts)}),
+                        format!("a proof with changed content is accepted ({})", class_of(fam, &mlabel)),
+                        json!({"pair": pname, "seed": label, "mutation": mlabel, "mutant_index": idx, "spec": st.spec.json(), "options": format!("{:?}", st.opts)}),
                     );
                 },
             }
